@@ -236,3 +236,37 @@ def _x8(prop, schema, rw, tname, val, bad):
 @predicate('X9')
 def _x9(prop, schema, rw, tname, val, bad):
     return bool((bad[1] or {}).get('x9_signature'))
+
+
+# ---------------------------------------------------------------------------------------------- atheris
+def run_atheris(prop, seed, runs, max_time, stats):
+    """Thorough tiers of C06 / C13: one coverage-guided campaign (tools/fuzz_py.py) per worker."""
+    import json
+    import os
+    import shutil
+    import subprocess
+    import sys
+    from . import pyh
+    from .runner import VERIF
+    out = pyh.fresh_dir('ath')
+    env = dict(os.environ, PYTHONHASHSEED='0')
+    try:
+        p = subprocess.run([sys.executable, os.path.join(VERIF, 'tools', 'fuzz_py.py'), prop, str(seed), str(runs), out,
+                            str(max_time)], stdout=subprocess.PIPE, stderr=subprocess.STDOUT, env=env,
+                           timeout=max_time + 900)
+        st = {}
+        if os.path.exists(os.path.join(out, 'stats.json')):
+            st = json.load(open(os.path.join(out, 'stats.json')))
+        stats.notes['atheris_execs'] += int(st.get('execs', 0))
+        stats.notes['atheris_campaigns'] += 1
+        vio = os.path.join(out, 'violation.json')
+        if os.path.exists(vio):
+            v = json.load(open(vio))
+            return v
+        if p.returncode not in (0,):
+            tail = p.stdout.decode(errors='replace')[-1500:]
+            # libFuzzer's own crash (uncaught exception in the target = harness problem) is reported as such
+            stats.errors.append('atheris campaign for %s exited with %d: %s' % (prop, p.returncode, tail))
+        return None
+    finally:
+        shutil.rmtree(out, ignore_errors=True)
